@@ -37,3 +37,12 @@ package statefulset
   ensures [accept-iff-some-source-selects] (forall ((o V)) (= (accept result o)
         (exists ((j Int)) (and (<= 0 j) (< j (slen {sources})) (srcSelects (select (sarr {sources}) j) o)))))
 @*/
+
+/*@ func types/statefulset.PodsFilter$1
+  props C17
+  note the less function handed to sort.Slice (which calls it with indices in range): sources are ordered by namespace, then name - the order that makes the filter independent of the order of the arguments
+  requires [indices-in-range] (and (<= 0 {i}) (< {i} (slen {srcs})) (<= 0 {j}) (< {j} (slen {srcs})))
+  requires [sources-non-nil] (and (not (= (select (sarr {srcs}) {i}) vnil)) (not (= (select (sarr {srcs}) {j}) vnil)))
+  ensures [orders-by-namespace-then-name] (= result (or (strlt {srcs[i].ObjectMeta.Namespace} {srcs[j].ObjectMeta.Namespace})
+        (and (= {srcs[i].ObjectMeta.Namespace} {srcs[j].ObjectMeta.Namespace}) (strlt {srcs[i].ObjectMeta.Name} {srcs[j].ObjectMeta.Name}))))
+@*/
